@@ -526,14 +526,26 @@ fn run_solve(sink: &mut CaseSink, st: &mut Stats, input: &Value, tags: &[&str]) 
     }
     let a2 = dense_to_csc(&ad2, n);
 
+    // Build and solve are guarded separately.  A panic while *building* either solver is a
+    // disagreement (the model of the build is total).  A panic inside solve() that occurs with
+    // presolve on AND identically on the hand-reduced problem with presolve off is a defect of the
+    // interior-point iteration on that problem (subject of C04/C07/C14), not of presolve: such a
+    // case is recorded as information (code 2), not as a C09 violation.
     clarabel::set_infinity(inf);
     let s1 = do_build(&a, &b, &q, &cones, pe, equil);
+    let built1 = s1.is_some();
     clarabel::set_infinity(inf_after);
     let r1 = s1.and_then(|mut s| guarded(move || { s.solve(); s }));
     clarabel::set_infinity(inf);
-    let r2 = if pe {
-        do_build(&a2, &b2, &q, &cones2, false, equil).and_then(|mut s| guarded(move || { s.solve(); s }))
-    } else { None };
+    let s2 = if pe { do_build(&a2, &b2, &q, &cones2, false, equil) } else { None };
+    let built2 = s2.is_some();
+    let r2 = s2.and_then(|mut s| guarded(move || { s.solve(); s }));
+    let solve_panic_both = built1 && r1.is_none() && (if pe { built2 && r2.is_none() } else { true });
+    if solve_panic_both {
+        st.bump("solve:panic-inside-solve-with-and-without-presolve(info)");
+        sink.case("solve", input.clone(), "2%N".to_string(), tags);
+        return;
+    }
 
     let head = format!("c_solve {} {} {} {} {}", pe, cfl(inf), raw_coq(&a), cfllist(&b), cones_coq(&cones));
     let coq = match (r1, r2, pe) {
@@ -717,7 +729,7 @@ fn main() {
         }
         i += 1;
     }
-    silence_panics();
+    if std::env::var("C09_SHOW_PANICS").is_err() { silence_panics(); }
     let thorough = tier == "thorough";
     let mut sink = CaseSink::new(&out);
     let mut st = Stats::default();
